@@ -19,7 +19,10 @@ ROOTS6 = ['act', 'bill', 'doc', 'statement', 'debateReport', 'judgment']
 ROOTS7 = ROOTS6 + ['debate']
 
 # characters that are legal in XML 1.0 documents and that lxml accepts in text
-SAFE_ODD = ['é', 'ß', 'Ω', 'ж', 'א', 'ب', 'क', '中', ' ', ' ', '​', ' ', '　', '⸺', '“', '”', '§', '\U0001F600', '\U00010348', '�', '\u0085', ' ', ' ', '\x1c', '\x1d', '\x1e', '\x1f']
+SAFE_ODD = ['é', 'ß', 'Ω', 'ж', 'א', 'ب', 'क', '中', ' ', ' ', '​', ' ', '　', '⸺', '“', '”', '§', '\U0001F600', '\U00010348', '�', '\u0085', ' ', ' ', '\x1c', '\x1d', '\x1e', '\x1f',
+            # not in Unicode normal form (NFC / NFKC would rewrite them): decomposed accent, singleton compatibility characters,
+            # combining marks out of canonical order, compatibility ligature / superscript / fullwidth
+            'e\u0301', '\u212b', '\u2126', '\u212a', '\u037e', '\uf900', 'a\u0307\u0323', '\ufb01', '\u00b2', '\uff21']
 UNSAFE = ['\x00', '\x01', '\x0b', '\x0c', '\x0e', '\x0f', '\x08', '￾', '￿']
 
 
@@ -43,6 +46,9 @@ class Words:
                 return '\U00010348%d\U0001F600' % self.n
             if k < 0.4:
                 return '\u0436%d\u044f' % self.n
+            if k < 0.48:
+                # not in Unicode normal form: ANGSTROM SIGN ... e + COMBINING ACUTE (a normalising stage would change the word)
+                return '\u212b%de\u0301' % self.n
         return 'w%d' % self.n
 
     def some(self, n=None):
@@ -205,7 +211,11 @@ class DocGen:
     def attrs(self):
         if self.rng.random() >= self.attrs_p:
             return ''
-        return self.rng.choice(['.cls', '.a.b', '{status editorial}', '.c{refersTo #x}', '{class z}'])
+        if self.rng.random() < 0.15:
+            # payload words as classes: a dotted class whose name is a prefix of the first explicit class
+            a, b = self.w.one(), self.w.one()
+            return '.%s{class %s00 %s}' % (a, a, b) if self.rng.random() < 0.6 else '.%s.%s' % (a, b)
+        return self.rng.choice(['.cls', '.a.b', '{status editorial}', '.c{refersTo #x}', '{class z}', '.col{class column-wide}', '.foo.b{class foo bar|refersTo #x}'])
 
     def corner(self, ind):
         """legal but unusual forms: bare keywords, empty elements, headings without nums, odd nums"""
